@@ -181,6 +181,23 @@ func c11Case(c *core.Ctx, idx int) {
 			}
 		}
 
+		// --- a target whose byte slices already ARE the input (a message peeled in place: the payload
+		// field of the envelope is decoded into the envelope again): Unmarshal only reads its input ---
+		if len(data) > 0 {
+			in := append([]byte(nil), data...)
+			ta := reflect.New(tc.typ)
+			ta.Elem().Set(model.DeepCopy(target.Elem()))
+			if n := aliasBytes(ta.Elem(), in[:len(in):len(in)], 0); n > 0 {
+				err, pn := unmarshal(tc.p, in, ta.Interface())
+				rec.Eval(1)
+				if !bytes.Equal(in, data) {
+					rec.Violation("input-modified", fmt.Sprintf("Unmarshal changed its input when %d byte-slice position(s) of the target already held that very buffer (%v %s) %s\n  input before %s\n  input after  %s", n, err, trunc1(pn), desc(), hexHead(data), hexHead(in)), caseExtra(tc, v, data))
+					return
+				}
+				rec.Count("targets_aliasing_the_input", 1)
+			}
+		}
+
 		// --- damaged input: whatever Unmarshal returns, what it left in the target owns its memory ---
 		if len(data) > 1 {
 			for k := 0; k < 3; k++ {
@@ -259,6 +276,42 @@ func c11Case(c *core.Ctx, idx int) {
 			rec.Sample(map[string]any{"config": tc.name, "type": typeString(tc.typ), "value": model.Show(v), "bytes": fmt.Sprintf("%x", data), "strings_and_byte_slices_in_decoded_value": len(refs), "input": "PROT_READ mapping, unmapped before the decoded value was compared"})
 		}
 	}
+}
+
+// aliasBytes sets the []byte positions of v (fields, pointer targets, the first elements of slices)
+// to b and returns how many it set
+func aliasBytes(v reflect.Value, b []byte, depth int) int {
+	if depth > 8 {
+		return 0
+	}
+	if v.Type() == model.BytesT {
+		if v.CanSet() {
+			v.SetBytes(b)
+			return 1
+		}
+		return 0
+	}
+	n := 0
+	switch v.Kind() {
+	case reflect.Ptr:
+		if !v.IsNil() {
+			n += aliasBytes(v.Elem(), b, depth+1)
+		}
+	case reflect.Struct:
+		if v.Type() == model.TimeT {
+			return 0
+		}
+		for i := 0; i < v.NumField(); i++ {
+			if v.Type().Field(i).IsExported() {
+				n += aliasBytes(v.Field(i), b, depth+1)
+			}
+		}
+	case reflect.Slice:
+		for i := 0; i < v.Len() && i < 3; i++ {
+			n += aliasBytes(v.Index(i), b, depth+1)
+		}
+	}
+	return n
 }
 
 // probeMaps looks every key of every map up again (hashing and comparing the key bytes)
